@@ -83,7 +83,9 @@ Readings of the English (weaker reading taken where ambiguous)
   * values "within a graph": its inputs, initializers and the outputs of its own nodes.
   * Function bodies carry no initializers (FunctionProto cannot): not generated; NameFixPass skips them.
 
-Tie (every run; quick ~30 s; part B also compares the non-name payload token of every value and node): (A) 260 histories x <=30 ops on a real ir.Graph (ctor with inputs/initializers,
+Tie (every run; part B includes a stream that REUSES one NameFixPass object: run, edit names of the live objects, run
+  the same object again, and run it on a second model - expected = what a fresh pass object gives (seeded C15-r6m1);
+  quick ~30 s; part B also compares the non-name payload token of every value and node): (A) 260 histories x <=30 ops on a real ir.Graph (ctor with inputs/initializers,
   new nodes with explicit/None/generated-looking names, append/extend/insert_before/insert_after incl. foreign
   nodes and re-adding, remove, renames) - outcome and changed/touched names after every op + all names at the
   end vs grun; (B) 420 generated models (nested subgraphs via GRAPH/GRAPHS attributes, functions, missing /
@@ -1025,15 +1027,16 @@ def _structure(spec, values, nodes, graphs) -> dict:
     return out
 
 
-def run_namefix(spec: dict) -> dict:
+def run_namefix(spec: dict, built=None, pass_obj=None) -> dict:
+    """Run NameFixPass on the model of `spec` (or on already built objects, with a given pass object)."""
     from onnx_ir.passes.common.naming import NameFixPass
-    model, values, nodes, graphs = build_model(spec)
+    model, values, nodes, graphs = built if built is not None else build_model(spec)
     before = _structure(spec, values, nodes, graphs)
     err = None
     msg = ""
     modified = None
     try:
-        res = NameFixPass()(model)
+        res = (pass_obj if pass_obj is not None else NameFixPass())(model)
         modified = bool(res.modified)
         same_model = res.model is model
     except Exception as e:  # noqa: BLE001
@@ -1065,6 +1068,54 @@ def run_namefix(spec: dict) -> dict:
             "nn": [nodes[i].name for i in range(len(nodes))], "inits": inits, "struct_same": before == after,
             "vx0": vx0, "nx0": nx0, "vx1": vx1, "nx1": nx1, "vown": vown,
             "same_model": same_model}
+
+
+def gen_edits(rng, spec: dict) -> list:
+    """Edits applied between two runs of ONE pass object: give a value / node the current name of another one."""
+    init_of = {int(k) for k in spec["init_of"]}
+    plain = [i for i in range(len(spec["vnames"])) if i not in init_of]
+    edits = []
+    for _ in range(rng.choice([1, 1, 2, 3])):
+        if rng.random() < 0.7 and len(plain) >= 1 and len(spec["vnames"]) >= 2:
+            t = rng.choice(plain)
+            src = rng.choice([i for i in range(len(spec["vnames"])) if i != t])
+            edits.append(["v", t, src])
+        elif len(spec["nnames"]) >= 2:
+            t, src = rng.sample(range(len(spec["nnames"])), 2)
+            edits.append(["n", t, src])
+    return edits
+
+
+def run_namefix_reuse(spec: dict, edits: list, other: dict | None = None) -> dict:
+    """ONE NameFixPass object: run on the model, apply the edits to the live objects, run the same object again
+    (and, if `other` is given, then on a second model).  Returns the observation of the first run, the specification
+    describing the edited model (what a FRESH pass object would be given) and the observation of the second run."""
+    from onnx_ir.passes.common.naming import NameFixPass
+    built = build_model(spec)
+    model, values, nodes, graphs = built
+    pobj = NameFixPass()
+    obs1 = run_namefix(spec, built=built, pass_obj=pobj)
+    out = {"obs1": obs1, "spec2": None, "obs2": None, "obs3": None}
+    if obs1["err"] is not None:
+        return out
+    for kind, t, src in edits:
+        if kind == "v":
+            if not values[t].is_initializer():
+                values[t].name = values[src].name
+        else:
+            nodes[t].name = nodes[src].name
+    spec2 = json.loads(json.dumps(spec))
+    spec2["vnames"] = [values[i].name for i in range(len(values))]
+    spec2["nnames"] = [nodes[i].name for i in range(len(nodes))]
+    vh = {id(v): k for k, v in values.items()}
+    for top in [spec2["main"]] + spec2["funcs"]:
+        for gs in _graphs_of(top):
+            gs["inits"] = [vh[id(v)] for v in graphs[gs["gid"]].initializers.values()]
+    out["spec2"] = spec2
+    out["obs2"] = run_namefix(spec2, built=built, pass_obj=pobj)
+    if other is not None:
+        out["obs3"] = run_namefix(other, pass_obj=pobj)
+    return out
 
 
 def _visible_chain(spec):
@@ -1634,6 +1685,39 @@ def part_b(ck, n_models: int, corpus: list) -> tuple[list, list]:
         names = [x for x in spec["vnames"] if x]
         if obs["modified"] and (len(set(names)) < len(names) or depth > 0):
             ck.nontriv(("B", spec))
+    # ---- one pass object reused: second run after an edit (and a run on a second model) must behave like a fresh one
+    reuse_fail = []
+    for i, spec in enumerate(specs):
+        if i % 3 != 1 or len(spec["vnames"]) < 2:
+            continue
+        edits = gen_edits(ck.rng, spec)
+        other = gen_model(ck.rng, small=True) if i % 6 == 1 else None
+        r = run_namefix_reuse(spec, edits, other)
+        if r["obs2"] is None:
+            continue
+        ck.count()
+        ck.hist("B_outcome", "reuse:" + (r["obs2"]["err"] or ("modified" if r["obs2"]["modified"] else "unchanged")))
+        cases.append((r["spec2"], r["obs2"]))
+        bad2 = oracle_namefix(r["spec2"], r["obs2"])
+        if bad2:
+            reuse_fail.append(({"model": spec, "edits": edits}, r["spec2"], r["obs2"], bad2))
+        if other is not None and r["obs3"] is not None:
+            ck.count()
+            ck.hist("B_outcome", "reuse:second-model")
+            cases.append((other, r["obs3"]))
+            bad3 = oracle_namefix(other, r["obs3"])
+            if bad3:
+                fails.append((other, r["obs3"], bad3))
+    for case, spec2, obs2, bad2 in reuse_fail:
+        unknown = [b for k, its in classify_namefix(spec2, obs2, bad2).items() if not (k and ck.known(k)) for b in its]
+        for k in classify_namefix(spec2, obs2, bad2):
+            if k and ck.known(k):
+                ck.known_finding(k, ck.known(k)["what"])
+        if unknown and not any("reused pass object" in v for v in ck.violations):
+            ck.violation({"kind": "oracle", "part": "B2", "model": case["model"], "edits": case["edits"],
+                          "what": "one NameFixPass object, run / edit / run again: the second run violates the property "
+                                  "(reused pass object)", "second_run": obs2, "failures": unknown, "broken": ck.broken_items})
+            break
     if cases:
         ck.sample({"part": "B", "vnames_before": cases[-1][0]["vnames"], "vnames_after": cases[-1][1]["vn"],
                    "outcome": cases[-1][1]["err"] or "ok"})
@@ -1844,6 +1928,11 @@ def replay(rp: dict) -> int:
         obs = run_namefix(rp["model"])
         bad = oracle_namefix(rp["model"], obs)
         print(json.dumps({"observed": obs, "failures": bad}, indent=1, default=str))
+        return 1 if bad else 0
+    if part == "B2":
+        r = run_namefix_reuse(rp["model"], rp["edits"])
+        bad = oracle_namefix(r["spec2"], r["obs2"]) if r["obs2"] is not None else []
+        print(json.dumps({"second_run": r["obs2"], "failures": bad}, indent=1, default=str))
         return 1 if bad else 0
     if part == "C":
         obs = run_rename(rp["case"])
